@@ -372,6 +372,9 @@ def run(chk):
                         'BEING_PROCESSED: a ring slot keeps the status of its previous use', floor=9)
     from . import c12 as _c12
     _c12.run_v9(chk, P, 'Q8', lambda fn: bool(re.search(r'burst|queue|submit_job_and_check|get_next_job|get_completed_job|flush_job', fn)), 200)
+    q10 = chk.rule('Q10', 'a queue function that turns earliest_job == next_job into the empty marker reaches every return through that '
+                          'normalisation, or leaves on a pure emptiness test / a rejected argument / the verdict of another normalising function / '
+                          '(when no ring-changing caller relies on it) without having changed the ring', floor=27)
     q9 = chk.rule('Q9', 'a contiguous-slot count (get_queue_sz_end) is taken from the ring offset that is then advanced by it (ADV_N_JOBS)', floor=9)
     nvar = 0
     mgr = P.record('IMB_MGR')
@@ -392,6 +395,7 @@ def run(chk):
             {f.name for f in P.funcs(tu) if re.match(r'init_mb_mgr_\w+_internal$', f.name)}
         run_q7(q7, P, tu, vt)
         run_q9(q9, P, tu, vt)
+        run_q10(q10, P, tu, vt)
         # ---- Q6
         if roles.get('get_next_burst') and P.has(tu, roles['get_next_burst']):
             run_q6(q6, P, tu, roles['get_next_burst'], vt)
@@ -672,6 +676,170 @@ def run_q9(q9, P, tu, vt):
                 continue
             q9.check(found == rf, '%s:%s:%s@%s' % (vt, f.name, rf, ev['loc'].split('/')[-1]), ev['loc'],
                      '%s measures the contiguous slots from %s but then advances %s by that count' % (f.name, rf, found))
+
+
+def _ring_store(ev):
+    if ev['k'] == 'assign':
+        return ring_field(ev['lhs'])
+    if ev['k'] == 'call' and ev['e'].get('fn') in ('ADV_JOBS', 'ADV_N_JOBS') and ev['e'].get('a'):
+        return addr_ring_field(ev['e']['a'][0])
+    return None
+
+
+def _local_defs(f, name):
+    out = []
+    for b, i, ev in f.events(('assign', 'decl')):
+        if ev['k'] == 'assign':
+            l = cf.strip_casts(ev['lhs'])
+            if isinstance(l, dict) and l.get('k') == 'ref' and l['n'] == name:
+                out.append((b, i, ev.get('rhs') if ev.get('op') in (None, '=') else None))
+        else:
+            for d in ev['d']:
+                if d['n'] == name and d.get('init') is not None:
+                    out.append((b, i, d['init']))
+    return out
+
+
+def _reaching(f, name, bid):
+    """right-hand sides of the definitions of local `name` that reach the end of block bid (None for a compound assignment)"""
+    defs = _local_defs(f, name)
+    where = {}
+    for b, i, r_ in defs:
+        where.setdefault(b, []).append(i)
+    out = []
+    for b, i, r_ in defs:
+        if any(j > i for j in where[b]):
+            continue                    # overwritten later in its own block
+        if b == bid:
+            out.append(r_)
+            continue
+        seen, st, hit = set(), list(f.succ(b)), False
+        while st and not hit:
+            x = st.pop()
+            if x in seen:
+                continue
+            seen.add(x)
+            if x in where:
+                continue                # redefined on this path (a definition inside bid itself comes before its terminator)
+            if x == bid:
+                hit = True
+                break
+            st.extend(f.succ(x))
+        if hit:
+            out.append(r_)
+    return out
+
+
+def _emptiness_edge(f, bid):
+    """index (0 = true edge, 1 = false edge) of the successor taken when the ring is EMPTY, if the block ends in a pure emptiness test
+    (`state->earliest_job < 0`, `queue_sz(state) == 0` after substituting single-definition locals), else None"""
+    t = f.blocks[bid].get('term')
+    if not t or t['kind'] != 'IfStmt' or len(f.blocks[bid]['succ']) != 2:
+        return None
+    try:
+        with guards.in_function(f):
+            c = cf.strip_casts(guards.expand(f, t.get('fullcond') or t.get('cond'), bid))
+    except Exception:
+        c = cf.strip_casts(t.get('fullcond') or t.get('cond') or {})
+    neg = False
+    while isinstance(c, dict) and c.get('k') == 'un' and c['op'] == '!':
+        c, neg = cf.strip_casts(c['e']), not neg
+    if not (isinstance(c, dict) and c.get('k') == 'bin'):
+        return None
+    l, r_, op = cf.strip_casts(c['l']), cf.strip_casts(c['r']), c['op']
+    if cf.evalc(r_) != 0:
+        return None
+    if isinstance(l, dict) and l.get('k') == 'ref' and not l.get('p') and not l.get('g'):
+        rd = _reaching(f, l['n'], bid)
+        if len(rd) == 1 and rd[0] is not None:
+            l = cf.strip_casts(rd[0])
+    empty_when_true = None
+    if ring_field(l) == 'earliest_job' and op in ('<', '>='):
+        empty_when_true = op == '<'
+    elif isinstance(l, dict) and l.get('k') == 'call' and l.get('fn') == 'queue_sz' and op in ('==', '!=', '>'):
+        empty_when_true = op == '=='
+    if empty_when_true is None:
+        return None
+    if neg:
+        empty_when_true = not empty_when_true
+    return 0 if empty_when_true else 1
+
+
+def run_q10(q10, P, tu, vt):
+    """ring normalisation: `earliest_job == next_job` means FULL unless the function that advanced earliest_job up to next_job turns the pair
+    into the empty marker (-1 / 0).  A queue function that carries this normalisation reaches each of its returns through it - or leaves on a
+    pure emptiness test, on a rejected argument, or (when nobody delegates to it after changing the ring) without having changed the ring."""
+    funcs = {f.name: f for f in P.funcs(tu)}
+    norm = {}
+    writers = set()
+    for f in funcs.values():
+        nb = []
+        for bid, b in f.blocks.items():
+            t = b.get('term')
+            if not t or t['kind'] != 'IfStmt':
+                continue
+            c = cf.strip_casts(t.get('fullcond') or t.get('cond') or {})
+            if isinstance(c, dict) and c.get('k') == 'bin' and c['op'] == '==' and {ring_field(c['l']), ring_field(c['r'])} == {'earliest_job', 'next_job'}:
+                # ... whose true side writes the empty marker (the same comparison without it is the FULL test of the submit path)
+                t0 = b['succ'][0]
+                region = [x for x in f.blocks if t0 is not None and (x == t0 or t0 in f.dominators().get(x, ()))]
+                if any(ev['k'] == 'assign' and ring_field(ev['lhs']) == 'earliest_job' and cf.evalc(ev.get('rhs') or {}) == -1
+                       for x in region for ev in f.blocks[x]['ev']):
+                    nb.append(bid)
+        if nb:
+            norm[f.name] = nb
+        if any(_ring_store(ev) for _, _, ev in f.events(('assign', 'call'))):
+            writers.add(f.name)
+    relied_on = set()
+    for g in writers:
+        for _, _, ev in funcs[g].calls():
+            c = ev['e'].get('fn')
+            if c in norm and c != g:
+                relied_on.add(c)
+    for name, nb in sorted(norm.items()):
+        f = funcs[name]
+        dom = f.dominators()
+        avoid = f.reachable(None, None, stop=lambda b: b in nb) - set(nb)
+        # blocks from which a return can be reached without passing a normalisation test
+        for bid in sorted(avoid):
+            b = f.blocks[bid]
+            rets = [ev for ev in b['ev'] if ev['k'] == 'return']
+            if not rets:
+                continue
+            ok = None
+            # (ii) reached only over the EMPTY edge of a pure emptiness test
+            for d in dom.get(bid, ()):
+                e = _emptiness_edge(f, d)
+                if e is None:
+                    continue
+                su = f.blocks[d]['succ'][e]
+                if su is not None and (su == bid or su in dom.get(bid, ())) and f.pred[su] == [d]:
+                    ok = 'empty'
+            # (iii) a rejected argument
+            if ok is None and guards.is_guard_block(b, func=f):
+                ok = 'reject'
+            # (iv) the verdict of another function that normalises
+            if ok is None:
+                v = cf.strip_casts(rets[-1].get('val') or {})
+                if isinstance(v, dict) and v.get('k') == 'call' and v.get('fn') in norm:
+                    ok = 'delegates'
+            # (v) nothing changed the ring on any normalisation-free path to here (not for functions others rely on)
+            if ok is None and name not in relied_on:
+                back = set()
+                st = [bid]
+                while st:
+                    x = st.pop()
+                    if x in back or x not in avoid:
+                        continue
+                    back.add(x)
+                    st.extend(f.pred[x])
+                if not any(_ring_store(ev) for x in back for ev in f.blocks[x]['ev']):
+                    ok = 'ring untouched'
+            q10.check(ok is not None, '%s:%s@%s' % (vt, name, rets[-1]['loc'].split('/')[-1]), rets[-1]['loc'],
+                      '%s returns at %s without passing its `earliest_job == next_job` normalisation, and the branch that leads there is not a pure '
+                      'emptiness test%s: a ring left with earliest_job == next_job reads as FULL (queue size 256, no slot offered, jobs never '
+                      'submitted handed back)' % (name, rets[-1]['loc'], ' (callers that changed the ring rely on this function to normalise it)'
+                                                  if name in relied_on else ''), detail=ok)
 
 
 def stage_calls(P, tu, fname, order, depth=0, seen=None):
